@@ -13,6 +13,10 @@ type Step struct {
 	A string `json:"a"` // access: ok down refuse hang 4xx 5xx garbage emptyuri
 	W string `json:"w"` // websocket: down refuse 4xx 5xx garbage emptyuri accept acceptdropw accepthang acceptstay hang
 	K int    `json:"k"` // accept: messages each way before the drop
+	// what else the HTTP reply carries (access replies and upgrade refusals), as a proxy in front of the relay
+	// might add: ra-sec ra-big ra-neg ra-garbage ra-date close location chunked gzip early (and combinations
+	// joined with +). The client has to behave exactly as without it, so this is not part of the model.
+	H string `json:"h,omitempty"`
 }
 
 // Cancel says in which attempt and phase the context is cancelled.
@@ -55,8 +59,12 @@ type Trace struct {
 }
 
 type Case struct {
-	Kind string `json:"kind"`          // loop | boff | boffj
-	Via  string `json:"via,omitempty"` // "client": driven through the public wrapper pkg/client (ReconnectAuth inside)
+	Kind  string `json:"kind"`            // loop | boff | boffj
+	Reuse string `json:"reuse,omitempty"` // the SAME client object is used for several rounds: reconws-plain reconws-auth client status
+	Group int    `json:"group,omitempty"`
+	Round int    `json:"round,omitempty"`
+	Note  string `json:"note,omitempty"`
+	Via   string `json:"via,omitempty"` // "client": driven through the public wrapper pkg/client (ReconnectAuth inside)
 	// loop
 	Loop     string `json:"loop,omitempty"` // plain | auth
 	Min      int64  `json:"min"`
@@ -182,7 +190,18 @@ func waitBefore(loop string, sched []Step, i int, min, max int64) int64 {
 var accFail = []string{"down", "refuse", "4xx", "5xx", "garbage", "emptyuri"}
 var wsFail = []string{"down", "refuse", "4xx", "5xx", "garbage", "emptyuri"}
 
+var replyExtras = []string{"ra-sec", "ra-sec", "ra-big", "ra-neg", "ra-garbage", "ra-date", "close", "location", "chunked", "gzip", "early",
+	"ra-sec+close", "ra-date+chunked", "ra-sec+location+gzip"}
+
 func genStep(r *lib.Rng, loop string, pSuccess int) Step {
+	s := genStep0(r, loop, pSuccess)
+	if r.Chance(2, 5) {
+		s.H = r.Pick(replyExtras)
+	}
+	return s
+}
+
+func genStep0(r *lib.Rng, loop string, pSuccess int) Step {
 	s := Step{A: "ok", W: "accept", K: r.Range(0, 6)}
 	if r.Chance(1, 6) {
 		s.K = r.Range(8, 30) // a burst
@@ -409,6 +428,37 @@ func genBoffCase(r *lib.Rng, i int) Case {
 		}
 	}
 	return c
+}
+
+// genReuseCases: the SAME reconws.ReconWs / client.Client / status.Status object is connected, cancelled and
+// connected again (new context, new servers, new token) for several rounds; in every round a healthy server
+// keeps the connection for 1.5 s and messages have to pass in both directions (pkg/status: reports arrive).
+func genReuseCases(r *lib.Rng, rounds int) []Case {
+	var cs []Case
+	for g, kind := range []string{"reconws-plain", "reconws-auth", "client", "status"} {
+		for k := 0; k < rounds; k++ {
+			loop := "auth"
+			if kind == "reconws-plain" {
+				loop = "plain"
+			}
+			c := Case{Kind: "loop", Loop: loop, Min: cfgMin, Max: cfgMax, Factor: cfgFact, Stay: int64(1500 * time.Millisecond),
+				Reuse: kind, Group: g + 1, Round: k}
+			if kind == "client" || kind == "status" {
+				c.Via, c.Min, c.Max = kind, 1000*ms, 10000*ms
+				if k == 1 {
+					c.Sched = append(c.Sched, genStep(r, loop, 0))
+				}
+			} else {
+				for n := r.Range(0, 2); n > 0; n-- {
+					c.Sched = append(c.Sched, genStep(r, loop, 0))
+				}
+			}
+			c.Sched = append(c.Sched, Step{A: "ok", W: "acceptstay"})
+			c.Cancel = Cancel{I: len(c.Sched) - 1, P: "conn"}
+			cs = append(cs, c)
+		}
+	}
+	return cs
 }
 
 // genBoffJCase: Jitter = true. The durations are random; what can be compared is that each is a value
